@@ -19,6 +19,55 @@ def mentions_reasons(v):
                     (x[0] == 'ref' and any(e == ('f', 'panic_reasons') for e in x[1][1])))
 
 
+def eval_wiring(chk, F, rule, cfg):
+    """private::eval = handle_error(eval::eval(..)); handle_error(Ok(v)) = v, handle_error(Err(e)) = induce_panic(e): the outcome of a call
+    depends on nothing but its own evaluation result (no other state is consulted between evaluation and return)"""
+    # private::eval hands eval::eval's result straight to handle_error
+    pe = F.fn('private::eval')
+    for p in symex.Interp(F).run(pe):
+        he = list(p.calls(r'^Unimock::handle_error$'))
+        ok = len(he) == 1 and is_call(strip(he[0].data[2][1]), r'^eval::eval$') and p.outcome[0] == 'return' and is_call(strip(p.outcome[1]), r'^Unimock::handle_error$')
+        chk.ob(rule, 'private::eval = handle_error(eval::eval(..))', ok, config=cfg, fn=pe, site='wiring', what='eval result bypasses handle_error',
+               found=[e.data[1] for e in p.calls()], expected='handle_error(self, eval::eval(self, inputs))')
+    he = F.method('Unimock', 'handle_error')
+    rows = tables.abstract(symex.Interp(F).run(he),
+                           lambda d, p: ('result', {decision_variant(F, d)}) if strip(d.value) == ('discr', ('param', 0, 2), 'core::result::Result') and isinstance(decision_variant(F, d), str) else None,
+                           lambda p: ('induce_panic(%s)' % show(list(p.calls(r'^Unimock::induce_panic$'))[0].data[2][1]) if p.called(r'^Unimock::induce_panic$') and p.outcome[0] == 'diverge'
+                                      else ('value:%s' % show(p.outcome[1]) if p.outcome[0] == 'return' else p.outcome[0])))
+    tables.check_table(chk, rule, he, rows, [
+        ('Err(e) => induce_panic(e)', {'result': {'Err'}}, 'induce_panic((arg2 as Err).0)'),
+        ('Ok(v) => v', {'result': {'Ok'}}, 'value:(arg2 as Ok).0'),
+    ], config=cfg)
+
+
+
+def records_before_panic(chk, F, rule, cfg, nostd):
+    """on every path of induce_panic the error parameter itself is pushed to the shared list (under the lock) before the panic -
+    whichever instance (original or clone) the failing call went through"""
+    # ---- R08.2 push dominates the panic, pushed value is the error parameter
+    ip = F.method('Unimock', 'induce_panic')
+    paths = symex.Interp(F, inline=INLINE_LOCK).run(ip)
+    chk.ob(rule, 'induce_panic has at least one path', len(paths) >= 1, config=cfg, fn=ip, site='paths', unrecognised=True, what='no paths')
+    for p in paths:
+        diverged = p.outcome[0] == 'diverge' and L.is_panic_entry(p.outcome[1])
+        chk.ob(rule, 'induce_panic always ends in its panic', diverged, config=cfg, fn=ip, site='outcome', what='non-panicking path',
+               found=str(p.outcome[:2]), expected='diverge via core::panicking')
+        pushes = [e for e in p.calls(r'^std::vec::Vec::push$') if mentions_reasons(e.data[2][0])]
+        good = [e for e in pushes if strip(e.data[2][1]) == ('param', 0, 2)]
+        chk.ob(rule, 'the error is pushed to the shared panic_reasons list on every path before panicking', len(good) == 1, config=cfg,
+               fn=ip, site='push', what='error not recorded on some path',
+               found={'pushes': [show(e.data[2][1]) for e in pushes], 'decisions': [show(d.value) for d in p.decisions]},
+               expected='exactly one Vec::push(&mut *panic_reasons, error) on every path')
+        under_lock = any(True for _ in p.calls(r'Mutex::lock$')) or nostd
+        chk.ob(rule, 'the push happens under the lock', under_lock, config=cfg, fn=ip, site='lock', what='push outside lock')
+        if nostd:
+            w = [e for e in p.effects if e.kind == 'write' and e.data[1] == ('c', True) and mentions(e.data[0][0][1] if e.data[0][0][0] == 'ptr' else ('unk', ''), lambda x: (x[0] == 'ref' and any(el == ('f', 'panicked') for el in x[1][1])) or (x[0] == 'field' and x[2] == 'panicked'))]
+            chk.ob(rule, 'no_std: induce_panic marks the instance as panicked before panicking', len(w) >= 1, config=cfg, fn=ip,
+                   site='panicked', what='panicked flag not set', found=[show(e.data[1]) for e in p.effects if e.kind == 'write'], expected='*panicked = true')
+    chk.sample({'fn': ip.defp, 'config': cfg, 'paths': len(paths), 'push': 'Vec::push(&mut *guard(panic_reasons), error)'})
+
+
+
 def run(chk, tier):
     chk.explain('K1: census of explicit panic sites reachable from private::eval / Continuation::report / handle_error (only '
                 'induce_panic\'s final panic and the lock-poison unwrap are allowed). K2/K6: in induce_panic (lock wrapper and '
@@ -47,44 +96,9 @@ def run(chk, tier):
                            expected='only Unimock::induce_panic panics (after recording); everything else returns MockError')
         chk.call_sites += nsites
         chk.floor('R08.1', 'functions reachable from the mocked-call entry points', len(reach), 15, config=cfg)
-        # private::eval hands eval::eval's result straight to handle_error
-        pe = F.fn('private::eval')
-        for p in symex.Interp(F).run(pe):
-            he = list(p.calls(r'^Unimock::handle_error$'))
-            ok = len(he) == 1 and is_call(strip(he[0].data[2][1]), r'^eval::eval$') and p.outcome[0] == 'return' and is_call(strip(p.outcome[1]), r'^Unimock::handle_error$')
-            chk.ob('R08.1', 'private::eval = handle_error(eval::eval(..))', ok, config=cfg, fn=pe, site='wiring', what='eval result bypasses handle_error',
-                   found=[e.data[1] for e in p.calls()], expected='handle_error(self, eval::eval(self, inputs))')
-        he = F.method('Unimock', 'handle_error')
-        rows = tables.abstract(symex.Interp(F).run(he),
-                               lambda d, p: ('result', {decision_variant(F, d)}) if strip(d.value) == ('discr', ('param', 0, 2), 'core::result::Result') and isinstance(decision_variant(F, d), str) else None,
-                               lambda p: ('induce_panic(%s)' % show(list(p.calls(r'^Unimock::induce_panic$'))[0].data[2][1]) if p.called(r'^Unimock::induce_panic$') and p.outcome[0] == 'diverge'
-                                          else ('value:%s' % show(p.outcome[1]) if p.outcome[0] == 'return' else p.outcome[0])))
-        tables.check_table(chk, 'R08.1', he, rows, [
-            ('Err(e) => induce_panic(e)', {'result': {'Err'}}, 'induce_panic((arg2 as Err).0)'),
-            ('Ok(v) => v', {'result': {'Ok'}}, 'value:(arg2 as Ok).0'),
-        ], config=cfg)
+        eval_wiring(chk, F, 'R08.1', cfg)
 
-        # ---- R08.2 push dominates the panic, pushed value is the error parameter
-        ip = F.method('Unimock', 'induce_panic')
-        paths = symex.Interp(F, inline=INLINE_LOCK).run(ip)
-        chk.ob('R08.2', 'induce_panic has at least one path', len(paths) >= 1, config=cfg, fn=ip, site='paths', unrecognised=True, what='no paths')
-        for p in paths:
-            diverged = p.outcome[0] == 'diverge' and L.is_panic_entry(p.outcome[1])
-            chk.ob('R08.2', 'induce_panic always ends in its panic', diverged, config=cfg, fn=ip, site='outcome', what='non-panicking path',
-                   found=str(p.outcome[:2]), expected='diverge via core::panicking')
-            pushes = [e for e in p.calls(r'^std::vec::Vec::push$') if mentions_reasons(e.data[2][0])]
-            good = [e for e in pushes if strip(e.data[2][1]) == ('param', 0, 2)]
-            chk.ob('R08.2', 'the error is pushed to the shared panic_reasons list on every path before panicking', len(good) == 1, config=cfg,
-                   fn=ip, site='push', what='error not recorded on some path',
-                   found={'pushes': [show(e.data[2][1]) for e in pushes], 'decisions': [show(d.value) for d in p.decisions]},
-                   expected='exactly one Vec::push(&mut *panic_reasons, error) on every path')
-            under_lock = any(True for _ in p.calls(r'Mutex::lock$')) or nostd
-            chk.ob('R08.2', 'the push happens under the lock', under_lock, config=cfg, fn=ip, site='lock', what='push outside lock')
-            if nostd:
-                w = [e for e in p.effects if e.kind == 'write' and e.data[1] == ('c', True) and mentions(e.data[0][0][1] if e.data[0][0][0] == 'ptr' else ('unk', ''), lambda x: (x[0] == 'ref' and any(el == ('f', 'panicked') for el in x[1][1])) or (x[0] == 'field' and x[2] == 'panicked'))]
-                chk.ob('R08.2', 'no_std: induce_panic marks the instance as panicked before panicking', len(w) >= 1, config=cfg, fn=ip,
-                       site='panicked', what='panicked flag not set', found=[show(e.data[1]) for e in p.effects if e.kind == 'write'], expected='*panicked = true')
-        chk.sample({'fn': ip.defp, 'config': cfg, 'paths': len(paths), 'push': 'Vec::push(&mut *guard(panic_reasons), error)'})
+        records_before_panic(chk, F, 'R08.2', cfg, nostd)
 
         # ---- R08.3 append-only list
         acc = L.field_accesses(F, 'state::SharedState', 'panic_reasons')
